@@ -145,9 +145,12 @@ def err(c, v):
 
 
 def ser(c, v):
-    if c is UNDEF:
+    if c is UNDEF or v is UNDEF:
         return UNDEF
-    return c.into_data(v)
+    try:
+        return c.into_data(v)
+    except Exception:
+        return UNDEF
 
 
 def expected_of(c, plural=False):
@@ -229,7 +232,7 @@ def has_attr(o, name):
 
 
 def typeof(o):
-    return type(o)
+    return UNDEF if o is UNDEF else type(o)
 
 
 def lt(a, b):
@@ -293,8 +296,10 @@ as_seq = as_set = as_map
 
 def sat(s, i):
     try:
+        if isinstance(s, (set, frozenset)):
+            s = list(s)         # iteration order (what a loop over the set sees)
         return s[i] if (i is not UNDEF and 0 <= i < len(s)) else UNDEF
-    except TypeError:
+    except (TypeError, KeyError, IndexError):
         return UNDEF
 
 
@@ -365,6 +370,87 @@ def methcall(name, recv, *args):
         return getattr(recv, name)(*args)
     except Exception:
         return UNDEF
+
+
+def forall_bools4(f):
+    import itertools
+    return all(f(*c) for c in itertools.product([False, True], repeat=4))
+
+
+def fnref(key):
+    import importlib
+    mod, qual = key.split(':')
+    o = importlib.import_module(mod)
+    for p in qual.split('.'):
+        o = getattr(o, p)
+    return o
+
+
+class _Hash:
+    def __init__(self, x):
+        self.x = x
+
+    def __eq__(self, o):
+        return o == hash(self.x) if isinstance(o, int) else (isinstance(o, _Hash) and o.x == self.x)
+
+    def __hash__(self):
+        return hash(self.x)
+
+
+def hash_of(x):
+    try:
+        return hash(x)
+    except TypeError:
+        return UNDEF
+
+
+def called(fn):
+    raise NotCheckable('call log')
+
+
+def methv(name, recv, seq, kw):
+    try:
+        return getattr(recv, name)(*seq, **(kw or {}))
+    except Exception:
+        return UNDEF
+
+
+def ret(key, *args):
+    f = fnref(key)
+    try:
+        return f(*args)
+    except Exception:
+        return UNDEF
+
+
+def ret_make_converter(ty, handlers):
+    from pane.convert import make_converter
+    if ty is UNDEF or handlers is UNDEF:
+        return UNDEF
+    try:
+        return make_converter(ty, handlers)
+    except Exception:
+        return UNDEF
+
+
+def ret_into_data(val):
+    from pane.convert import into_data
+    try:
+        return into_data(val)
+    except Exception:
+        return UNDEF
+
+
+def clsref(name):
+    import importlib
+    for m in (importlib.import_module('pane.convert'), importlib.import_module('pane.classes'), importlib.import_module('pane.converters')):
+        if hasattr(m, name):
+            return getattr(m, name)
+    return UNDEF
+
+
+def id_of(x):
+    return id(x)
 
 
 def is_fresh(x):
@@ -444,6 +530,18 @@ def namespace():
     import pane.annotations as _ann
     ns['Condition'] = _ann.Condition
     ns['Tagged'] = _ann.Tagged
+    import typing as _t
+    ns['ANY'] = _t.Any
+    ns['NotImplementedV'] = NotImplemented
+    _cv = importlib.import_module('pane.convert')
+    ns['ConverterHandlers'] = _cv.ConverterHandlers
+    import pane.converters as _C
+    ns['AnyConverter'] = _C.AnyConverter
+    try:
+        import numpy as _np
+        ns['ndarray'] = _np.ndarray
+    except Exception:
+        ns['ndarray'] = type('ndarray', (), {})
     ns['Field'] = importlib.import_module('pane.field').Field
     ns['FieldSpec'] = importlib.import_module('pane.field').FieldSpec
     return ns
